@@ -146,7 +146,18 @@ pub struct Frame {
 /// check filters the kinds it is responsible for.
 #[derive(Clone, Debug, Serialize, Deserialize, PartialEq)]
 pub enum Notice {
-	IllegalRelease { tid: Tid, lid: Lid, op: Op, kind: IllegalKind, frame: u32, during_fault: bool },
+	IllegalRelease {
+		tid: Tid,
+		lid: Lid,
+		op: Op,
+		kind: IllegalKind,
+		frame: u32,
+		during_fault: bool,
+		/// other threads hold the lock at this moment (a release in the wrong
+		/// mode resets a real reader-writer lock for all of them)
+		#[serde(default)]
+		others: bool,
+	},
 	/// first raw operation of an acquiring call while the caller holds something
 	AcquireWhileHolding { tid: Tid, frame: u32, held: Vec<(Lid, bool)> },
 	/// a blocking request inside a try_* call that was not grantable
@@ -924,8 +935,12 @@ impl Exec {
 						IllegalKind::Foreign
 					};
 					let during_fault = !g.fault_fired.is_empty();
+					let others = {
+						let l = &g.locks[lid as usize];
+						l.excl.map(|t| t != tid).unwrap_or(false) || l.shared.iter().any(|t| *t != tid)
+					};
 					g.push_event(tid, lid, op, Outcome::Illegal(kind));
-					g.notices.push(Notice::IllegalRelease { tid, lid, op, kind, frame, during_fault });
+					g.notices.push(Notice::IllegalRelease { tid, lid, op, kind, frame, during_fault, others });
 				}
 				Decision::Done(true)
 			}
